@@ -18,7 +18,12 @@
 #include "OldVoronoiGrid.hpp"
 #include "verif_rc.hpp"
 
+#include <cfloat>
 #include <omp.h>
+#include <poll.h>
+#include <signal.h>
+#include <sys/wait.h>
+#include <unistd.h>
 
 using vr::VCase;
 using vr::VProp;
@@ -245,6 +250,199 @@ GridOut run_grid(const std::vector<Vec> &pos, const Box<> &box, int threads,
   return o;
 }
 
+// Every grid is built in a forked child: an endless loop or a crash of the code
+// under test becomes a reported failure instead of killing the check.  (The
+// parent never enters an OpenMP region, so forking is safe.)
+void encode(const GridOut &o, std::vector<double> &d) {
+  d.push_back((double)o.vol.size());
+  for (size_t i = 0; i < o.vol.size(); ++i) {
+    d.push_back(o.vol[i]);
+    d.push_back((double)o.cen[i].x);
+    d.push_back((double)o.cen[i].y);
+    d.push_back((double)o.cen[i].z);
+    d.push_back((double)o.faces[i].size());
+    for (auto &f : o.faces[i]) {
+      d.push_back((double)f.id);
+      d.push_back(f.area);
+      d.push_back((double)f.mid.x);
+      d.push_back((double)f.mid.y);
+      d.push_back((double)f.mid.z);
+      d.push_back((double)f.vert.size());
+      for (auto &v : f.vert) {
+        d.push_back((double)v.x);
+        d.push_back((double)v.y);
+        d.push_back((double)v.z);
+      }
+    }
+  }
+  d.push_back((double)o.index.size());
+  for (auto x : o.index)
+    d.push_back((double)x);
+}
+bool decode(const std::vector<double> &d, GridOut &o) {
+  size_t k = 0;
+  auto get = [&](double &x) {
+    if (k >= d.size())
+      return false;
+    x = d[k++];
+    return true;
+  };
+  double x, y, z, nn;
+  if (!get(nn))
+    return false;
+  const size_t n = (size_t)nn;
+  o.vol.resize(n);
+  o.cen.resize(n);
+  o.faces.resize(n);
+  for (size_t i = 0; i < n; ++i) {
+    double nf;
+    if (!get(o.vol[i]) || !get(x) || !get(y) || !get(z) || !get(nf))
+      return false;
+    o.cen[i] = {x, y, z};
+    for (size_t f = 0; f < (size_t)nf; ++f) {
+      GFace g;
+      double id, nv;
+      if (!get(id) || !get(g.area) || !get(x) || !get(y) || !get(z) || !get(nv))
+        return false;
+      g.id = (int64_t)id;
+      g.mid = {x, y, z};
+      for (size_t v = 0; v < (size_t)nv; ++v) {
+        if (!get(x) || !get(y) || !get(z))
+          return false;
+        g.vert.push_back({x, y, z});
+      }
+      o.faces[i].push_back(g);
+    }
+  }
+  if (!get(nn))
+    return false;
+  for (size_t q = 0; q < (size_t)nn; ++q) {
+    if (!get(x))
+      return false;
+    o.index.push_back((int64_t)x);
+  }
+  return true;
+}
+
+const double BUDGET_S = 30.; // a grid of 300 generators takes < 0.5 s
+
+// returns "" or what went wrong ("timeout", "signal N", "abort: ...")
+template <class GRID>
+std::string run_isolated(const std::vector<Vec> &pos, const Box<> &box,
+                         int threads, const std::vector<Vec> &queries,
+                         bool isnew, GridOut &out) {
+  int fd[2];
+  if (pipe(fd) != 0)
+    return "pipe failed";
+  fflush(stdout);
+  fflush(stderr);
+  const pid_t pid = fork();
+  if (pid < 0)
+    return "fork failed";
+  if (pid == 0) {
+    close(fd[0]);
+    std::vector<double> d;
+    try {
+      const GridOut o = run_grid<GRID>(pos, box, threads, queries, isnew);
+      d.push_back(1.);
+      encode(o, d);
+    } catch (const VerifAbort &e) {
+      d.clear();
+      d.push_back(-1.);
+      const std::string m = e.file + ":" + std::to_string(e.line) + ": " + e.msg;
+      for (char ch : m)
+        d.push_back((double)(unsigned char)ch);
+    }
+    const char *b = (const char *)d.data();
+    size_t left = d.size() * sizeof(double);
+    while (left) {
+      const ssize_t w = write(fd[1], b, left);
+      if (w <= 0)
+        break;
+      b += w;
+      left -= (size_t)w;
+    }
+    _exit(0);
+  }
+  close(fd[1]);
+  std::vector<char> buf;
+  bool timeout = false;
+  const auto t0 = std::chrono::steady_clock::now();
+  for (;;) {
+    const double el =
+        std::chrono::duration<double>(std::chrono::steady_clock::now() - t0).count();
+    if (el > BUDGET_S) {
+      timeout = true;
+      break;
+    }
+    struct pollfd pf = {fd[0], POLLIN, 0};
+    const int pr = poll(&pf, 1, 200);
+    if (pr > 0) {
+      char tmp[65536];
+      const ssize_t g = read(fd[0], tmp, sizeof tmp);
+      if (g <= 0)
+        break;
+      buf.insert(buf.end(), tmp, tmp + g);
+    }
+  }
+  close(fd[0]);
+  if (timeout)
+    kill(pid, SIGKILL);
+  int status = 0;
+  waitpid(pid, &status, 0);
+  if (timeout)
+    return "timeout";
+  if (WIFSIGNALED(status))
+    return "signal " + std::to_string(WTERMSIG(status));
+  std::vector<double> d(buf.size() / sizeof(double));
+  memcpy(d.data(), buf.data(), d.size() * sizeof(double));
+  if (d.empty())
+    return "no result";
+  if (d[0] < 0) {
+    std::string m = "abort: ";
+    for (size_t k = 1; k < d.size(); ++k)
+      m += (char)d[k];
+    return m;
+  }
+  d.erase(d.begin());
+  if (!decode(d, out))
+    return "truncated result";
+  return "";
+}
+
+// The incremental construction works on coordinates rescaled into [1,2)
+// (NewVoronoiGrid.cpp:136-186); generators that collapse onto each other or
+// onto a wall at that resolution (2^-52 of 9 x the longest side) are not
+// distinct points for it.  Same arithmetic, used only as a precondition.
+std::vector<double> rescaled(const double *x, const double *a, const double *s) {
+  const double ms = std::max(s[0], std::max(s[1], s[2]));
+  std::vector<double> r(3);
+  for (int k = 0; k < 3; ++k) {
+    const double mn = a[k] - s[k];
+    const double range = ((mn + 9 * ms) - mn) * (1. + DBL_EPSILON);
+    r[k] = 1. + (x[k] - mn) / range;
+  }
+  return r;
+}
+bool resolvable(const std::vector<double> &flat, const double *a, const double *s) {
+  std::set<std::vector<double>> seen;
+  double lo[3], hi[3];
+  for (int k = 0; k < 3; ++k) {
+    lo[k] = a[k];
+    hi[k] = a[k] + s[k];
+  }
+  const std::vector<double> rl = rescaled(lo, a, s), rh = rescaled(hi, a, s);
+  for (size_t i = 0; i + 2 < flat.size(); i += 3) {
+    const std::vector<double> r = rescaled(&flat[i], a, s);
+    for (int k = 0; k < 3; ++k)
+      if (!(r[k] - rl[k] > 16 * DBL_EPSILON && rh[k] - r[k] > 16 * DBL_EPSILON))
+        return false;
+    if (!seen.insert(r).second)
+      return false;
+  }
+  return true;
+}
+
 // ------------------------------------------------------------------ generator
 const char *CLS[] = {"uniform",        "clustered",     "lattice",
                      "perturbed-lattice", "coplanar-cospherical",
@@ -417,11 +615,12 @@ VCase gen_grid(int maxn, bool nondegenerate_only) {
     for (int k = 0; k < 3; ++k)
       inside &= x[k] > a[k] && x[k] < a[k] + s[k] &&
                 (x[k] - a[k]) / s[k] < 1. - 1e-13 && (x[k] - a[k]) / s[k] > 1e-13;
-    if (!inside || !seen.insert(x).second)
+    if (!inside || !seen.insert(rescaled(x.data(), a, s)).second)
       continue;
     flat.insert(flat.end(), x.begin(), x.end());
   }
   RC_PRE(flat.size() >= 6);
+  RC_PRE(resolvable(flat, a, s));
   c.I("cls", cls);
   c.I("threads", vr::weighted({5, 2, 2, 1}) + 1);
   c.D("anchor", {a[0], a[1], a[2]});
@@ -533,6 +732,21 @@ bool valid_problem(const Problem &P, VResult &r) {
       }
     }
   }
+  {
+    std::vector<double> flat;
+    for (auto &x : P.pos)
+      for (int k = 0; k < 3; ++k)
+        flat.push_back(x[k]);
+    const double a[3] = {P.box.get_anchor().x(), P.box.get_anchor().y(),
+                         P.box.get_anchor().z()};
+    const double sd[3] = {P.box.get_sides().x(), P.box.get_sides().y(),
+                          P.box.get_sides().z()};
+    if (!resolvable(flat, a, sd)) {
+      r.fail("malformed case: generators coincide (with each other or a wall) "
+             "at the resolution of the rescaled coordinates");
+      return false;
+    }
+  }
   return true;
 }
 
@@ -545,9 +759,21 @@ double min_separation(const Problem &P) {
   return (double)m;
 }
 
-const double TOL_SUM = 1e-10;  // |sum V - Vbox| / Vbox
-const double TOL_GEO = 1e-8;   // areas, midpoints, volumes relative to local scale
+// Tolerance model (DESIGN.md 3): a computed Voronoi vertex may be displaced by
+// DELTA box diagonals (~1e6 ulp of the box: the circumcentres are evaluated in
+// plain double arithmetic), on top of a relative 1e-9.
+const double DELTA = 1e-10;
+// OldVoronoiCell snaps a vertex onto a cutting plane when |v.d - d.d| <=
+// OLDVORONOI_TOLERANCE |sides|^2 (d = half the generator separation), i.e. it
+// documents a positional accuracy of 2e-10 L^2 / |d|.  For that grid the model
+// uses 10x this bound (set per case from the smallest generator separation).
+double g_delta = DELTA;
+const double TOL_GEO = 1e-8;   // distance to planes, relative to the box diagonal
 const double AREA_MIN = 1e-6;  // "non-negligible" face: area > AREA_MIN * V^(2/3)
+double tolV(double Lbox, double V, double A) { return 1e-9 * V + g_delta * Lbox * A; }
+double tolA(double Lbox, double A) {
+  return 1e-9 * A + g_delta * Lbox * 4. * std::sqrt(std::max(A, 0.));
+}
 
 struct Stat {
   double sum_err = 0, twin_area = 0, twin_mid = 0, plane = 0;
@@ -579,9 +805,18 @@ void check_grid(const char *name, const Problem &P, const GridOut &G,
   }
   const double serr = (double)fabsl(sum - P.Vbox) / P.Vbox;
   st.sum_err = std::max(st.sum_err, serr);
-  if (serr > (getenv("C15_SUMTOL") ? atof(getenv("C15_SUMTOL")) : TOL_SUM)) {
-    r.fail(fmt("%s: sum of cell volumes %.17Lg != box volume %.17g (rel %g)",
-               name, sum, P.Vbox, serr));
+  double stol = 0.;
+  for (size_t i = 0; i < n; ++i) {
+    double A = 0.;
+    for (auto &f : G.faces[i])
+      if (f.area > 0. && std::isfinite(f.area))
+        A += f.area;
+    stol += tolV(P.Lbox, G.vol[i], A);
+  }
+  if ((double)fabsl(sum - P.Vbox) > stol) {
+    r.fail(fmt("%s: sum of cell volumes %.17Lg != box volume %.17g (rel %g, "
+               "allowed %g)",
+               name, sum, P.Vbox, serr, stol / P.Vbox));
     return;
   }
   if (getenv("C15_SUMONLY"))
@@ -640,7 +875,7 @@ void check_grid(const char *name, const Problem &P, const GridOut &G,
           A = A + cross(f.vert[k] - f.mid, f.vert[(k + 1) % f.vert.size()] - f.mid);
         const LD an = 0.5L * dot(A, nrm);
         // |an| == area for a correctly ordered planar loop
-        if (fabsl(fabsl(an) - f.area) > 1e-6 * f.area + TOL_GEO * li * li) {
+        if (fabsl(fabsl(an) - f.area) > 1e-6 * f.area + 10 * tolA(P.Lbox, f.area)) {
           r.fail(fmt("%s: face %zu->%lld: vertex loop spans area %Lg, reported "
                      "area %g",
                      name, i, (long long)f.id, fabsl(an), f.area));
@@ -659,7 +894,7 @@ void check_grid(const char *name, const Problem &P, const GridOut &G,
           tw = &g;
       if (!tw) {
         // negligible seen from the (larger) neighbour?
-        if (f.area > AREA_MIN * lmax * lmax + TOL_GEO * lmax * lmax)
+        if (f.area > AREA_MIN * lmax * lmax + 10 * tolA(P.Lbox, f.area))
           r.fail(fmt("%s: face %zu->%zu (area %g) has no twin in cell %zu", name,
                      i, j, f.area, j));
         else
@@ -668,7 +903,7 @@ void check_grid(const char *name, const Problem &P, const GridOut &G,
       }
       const double ae = std::abs(tw->area - f.area);
       st.twin_area = std::max(st.twin_area, ae / (lmax * lmax));
-      if (ae > TOL_GEO * lmax * lmax) {
+      if (ae > 10 * tolA(P.Lbox, std::max(f.area, tw->area))) {
         r.fail(fmt("%s: face %zu->%zu has area %.17g, its twin %.17g", name, i,
                    j, f.area, tw->area));
         return;
@@ -676,7 +911,7 @@ void check_grid(const char *name, const Problem &P, const GridOut &G,
       if (f.area > 1e-3 * lmax * lmax) {
         const double me = (double)norm(tw->mid - f.mid);
         st.twin_mid = std::max(st.twin_mid, me / lmax);
-        if (me > 1e-6 * lmax) {
+        if (me > 1e-6 * lmax + 1e-8 * P.Lbox) {
           r.fail(fmt("%s: face %zu->%zu: midpoints of the twins differ by %g "
                      "(cell size %g)",
                      name, i, j, me, lmax));
@@ -692,13 +927,10 @@ void check_queries(const char *name, const Problem &P, const GridOut &G,
   for (size_t t = 0; t < P.queries.size(); ++t) {
     const V3 q = tov(P.queries[t]);
     if (G.index[t] == -2) {
-      r.label("query-bucket-overflow");
-      r.fail(fmt("%s: get_index(%.17g, %.17g, %.17g): position inside the box "
-                 "maps to bucket index == number of buckets "
-                 "(PointLocations::generalngbiterator would read out of bounds)",
-                 name, P.queries[t].x(), P.queries[t].y(), P.queries[t].z()));
-      r.known = "pointlocations_top_wall_bucket";
-      return;
+      // known finding pointlocations_top_wall_bucket, reported by the sub-check
+      // index_near_walls; the call is not made (it would be undefined behaviour)
+      r.label("query-bucket-overflow-skipped");
+      continue;
     }
     LD best = 1e300L, second = 1e300L;
     size_t bi = 0;
@@ -733,20 +965,28 @@ void check_ref(const char *name, const Problem &P, const GridOut &G,
                const std::vector<RefCell> &R, VResult &r, Stat &st) {
   for (size_t i = 0; i < P.p.size(); ++i) {
     const double l = std::cbrt((double)R[i].vol);
-    const double ve = std::abs(G.vol[i] - (double)R[i].vol) / (double)R[i].vol;
-    st.ref_vol = std::max(st.ref_vol, ve);
-    if (!(ve <= TOL_GEO)) {
+    double A = 0., D = 0.;
+    for (auto &f : R[i].faces) {
+      A += (double)f.area;
+      D = std::max(D, 2. * (double)norm(f.mid - P.p[i]));
+    }
+    const double tv = tolV(P.Lbox, (double)R[i].vol, A);
+    const double dv = std::abs(G.vol[i] - (double)R[i].vol);
+    const double ve = dv / (double)R[i].vol;
+    st.ref_vol = std::max(st.ref_vol, dv / tv);
+    if (!(dv <= tv)) {
       r.fail(fmt("%s: cell %zu volume %.17g, brute-force half-space "
-                 "intersection %.17Lg (rel %g)",
-                 name, i, G.vol[i], R[i].vol, ve));
+                 "intersection %.17Lg (rel %g, allowed %g)",
+                 name, i, G.vol[i], R[i].vol, ve, tv / (double)R[i].vol));
       return;
     }
-    const double ce = (double)norm(G.cen[i] - R[i].cen) / l;
-    st.ref_cen = std::max(st.ref_cen, ce);
-    if (!(ce <= TOL_GEO)) {
+    const double ce = (double)norm(G.cen[i] - R[i].cen);
+    const double tc = (tv / (double)R[i].vol + 1e-9) * D * 4.;
+    st.ref_cen = std::max(st.ref_cen, ce / tc);
+    if (!(ce <= tc)) {
       r.fail(fmt("%s: cell %zu centroid differs from the brute-force one by %g "
-                 "cell sizes",
-                 name, i, ce));
+                 "(cell diameter %g, allowed %g)",
+                 name, i, ce, D, tc));
       return;
     }
     // neighbour relation over non-negligible faces, both directions
@@ -759,14 +999,14 @@ void check_ref(const char *name, const Problem &P, const GridOut &G,
     for (auto &kv : ra) {
       const double a2 = ga.count(kv.first) ? ga[kv.first] : 0.;
       st.ref_area = std::max(st.ref_area, std::abs(a2 - kv.second) / (l * l));
-      if (std::abs(a2 - kv.second) > 10 * TOL_GEO * l * l) {
+      if (std::abs(a2 - kv.second) > 10 * tolA(P.Lbox, kv.second) + 1e-8 * l * l) {
         r.fail(fmt("%s: face %zu->%lld has area %.17g, brute-force %.17g", name,
                    i, (long long)kv.first, a2, kv.second));
         return;
       }
     }
     for (auto &kv : ga)
-      if (!ra.count(kv.first) && kv.second > 10 * TOL_GEO * l * l) {
+      if (!ra.count(kv.first) && kv.second > 10 * tolA(P.Lbox, kv.second) + 1e-8 * l * l) {
         r.fail(fmt("%s: cell %zu has a face of area %g towards %lld that does "
                    "not exist in the brute-force cell",
                    name, i, kv.second, (long long)kv.first));
@@ -802,6 +1042,83 @@ void common_labels(const Problem &P, VResult &r, bool mt) {
   r.nontrivial = n >= 8 && (degenerate || P.cls == 1 || (mt && P.threads > 1));
 }
 
+// ---------------------------------------------------------------- matchers
+// relative distance of the generator closest to a wall
+double min_wall_distance(const Problem &P) {
+  double m = 1.;
+  for (auto &x : P.pos)
+    for (int k = 0; k < 3; ++k) {
+      const double u = (x[k] - P.box.get_anchor()[k]) / P.box.get_sides()[k];
+      m = std::min(m, std::min(u, 1. - u));
+    }
+  return m;
+}
+// Known finding "newvoronoi_sliver_geometry": the Delaunay structure is exact,
+// but the cell vertices are circumcentres evaluated in plain double arithmetic
+// (NewVoronoiTetrahedron.hpp:148-173); for a sliver (four nearly coplanar
+// vertices, e.g. a generator and its mirror image next to a wall, lattice
+// planes, nearly cocircular points) the result is arbitrary.  Matcher: the
+// input contains such a configuration.
+bool sliver_prone(const Problem &P) {
+  if (min_wall_distance(P) < 1e-6)
+    return true;
+  const size_t n = P.p.size();
+  // four generators sharing a coordinate (axis-aligned plane)
+  for (int k = 0; k < 3; ++k) {
+    std::vector<double> v;
+    for (auto &x : P.pos)
+      v.push_back((x[k] - P.box.get_anchor()[k]) / P.box.get_sides()[k]);
+    std::sort(v.begin(), v.end());
+    for (size_t i = 0; i + 3 < v.size(); ++i)
+      if (v[i + 3] - v[i] < 1e-9)
+        return true;
+  }
+  if (n > (size_t)NREF)
+    return false;
+  for (size_t a = 0; a < n; ++a)
+    for (size_t b = a + 1; b < n; ++b)
+      for (size_t c = b + 1; c < n; ++c) {
+        const V3 u = P.p[b] - P.p[a], v = P.p[c] - P.p[a];
+        const V3 w = cross(u, v);
+        const LD lw = norm(w);
+        for (size_t d = c + 1; d < n; ++d) {
+          const V3 t = P.p[d] - P.p[a];
+          const LD e = std::max({norm(u), norm(v), norm(t)});
+          if (fabsl(dot(w, t)) < 1e-9L * e * e * e || lw < 1e-9L * e * e)
+            return true;
+        }
+      }
+  return false;
+}
+
+// Known finding "oldvoronoi_tolerance_near_degenerate": with four or more
+// generators within 1e-4 sides of a common axis-aligned plane (a lattice
+// perturbed by less than the snapping tolerance of OldVoronoiCell) the plane
+// cutting construction takes inconsistent on-plane decisions.
+bool old_tolerance_prone(const Problem &P) {
+  for (int k = 0; k < 3; ++k) {
+    std::vector<double> v;
+    for (auto &x : P.pos)
+      v.push_back((x[k] - P.box.get_anchor()[k]) / P.box.get_sides()[k]);
+    std::sort(v.begin(), v.end());
+    for (size_t i = 0; i + 3 < v.size(); ++i)
+      if (v[i + 3] - v[i] < 1e-4)
+        return true;
+  }
+  return false;
+}
+
+void grid_failure(const char *name, const std::string &err, const Problem &P,
+                  VResult &r) {
+  if (err == "timeout") {
+    r.fail(fmt("%s: construction did not finish within %g s (normal: < 0.5 s)",
+               name, BUDGET_S));
+    if (min_wall_distance(P) < 1e-6)
+      r.known = "newvoronoi_hang_generator_near_wall";
+  } else
+    r.fail(fmt("%s: construction failed on a valid input: %s", name, err.c_str()));
+}
+
 // the incremental construction: invariants, queries, brute-force reference
 VResult o_new(const VCase &c) {
   VResult r;
@@ -810,50 +1127,62 @@ VResult o_new(const VCase &c) {
     return r;
   common_labels(P, r, true);
   Stat st;
-  const GridOut G = run_grid<NewVoronoiGrid>(P.pos, P.box, P.threads, P.queries, true);
+  g_delta = DELTA;
+  if (getenv("C15_TRACE")) {
+    std::ofstream f("last.case");
+    VCase cc = c;
+    cc.prop = "new_grid";
+    f << cc.to_text();
+  }
+  GridOut G;
+  const std::string err =
+      run_isolated<NewVoronoiGrid>(P.pos, P.box, P.threads, P.queries, true, G);
+  if (!err.empty()) {
+    grid_failure("NewVoronoiGrid", err, P, r);
+    return r;
+  }
   check_grid("NewVoronoiGrid", P, G, r, st);
   if (r.ok && P.threads > 1) {
     // the multi-threaded construction must give the same grid
-    const GridOut S = run_grid<NewVoronoiGrid>(P.pos, P.box, 1, {}, true);
+    GridOut S;
+    const std::string e1 = run_isolated<NewVoronoiGrid>(P.pos, P.box, 1, {}, true, S);
+    if (!e1.empty()) {
+      grid_failure("NewVoronoiGrid (1 thread)", e1, P, r);
+      return r;
+    }
     for (size_t i = 0; i < P.pos.size() && r.ok; ++i)
-      if (S.vol[i] != G.vol[i] || S.faces[i].size() != G.faces[i].size())
+      if (S.vol[i] != G.vol[i] || S.faces[i].size() != G.faces[i].size()) {
         r.fail(fmt("NewVoronoiGrid: cell %zu differs between 1 and %d threads "
                    "(volume %.17g vs %.17g, %zu vs %zu faces)",
                    i, P.threads, S.vol[i], G.vol[i], S.faces[i].size(),
                    G.faces[i].size()));
+        return r; // not a geometry problem: never a known finding
+      }
   }
-  if (r.ok)
-    check_queries("NewVoronoiGrid", P, G, r);
-  if (r.ok && P.pos.size() <= (size_t)NREF && !getenv("C15_SUMONLY")) {
+  if (r.ok && P.pos.size() <= (size_t)NREF) {
     std::vector<RefCell> R;
     for (size_t i = 0; i < P.p.size(); ++i)
       R.push_back(ref_cell(i, P.p, P.lo, P.hi));
     check_ref("NewVoronoiGrid", P, G, R, r, st);
     r.label("brute-force-reference");
   }
+  if (!r.ok && sliver_prone(P))
+    r.known = "newvoronoi_sliver_geometry";
+  if (r.ok)
+    check_queries("NewVoronoiGrid", P, G, r);
   debug("new", P, st, min_separation(P) / P.Lbox);
   if (!r.ok && getenv("C15_NOFAIL")) {
-    fprintf(stderr, "C15FAIL new cls=%d n=%zu %s\n", P.cls, P.pos.size(), r.msg.substr(0, 150).c_str());
+    fprintf(stderr, "C15FAIL new cls=%d n=%zu %016llx known=%s %s\n", P.cls,
+            P.pos.size(), (unsigned long long)c.hash(), r.known.c_str(),
+            r.msg.substr(0, 150).c_str());
+    char fn[256];
+    snprintf(fn, sizeof fn, "nofail-%016llx.case", (unsigned long long)c.hash());
+    std::ofstream f(fn);
+    VCase cc = c;
+    cc.prop = "new_grid";
+    f << cc.to_text();
     r.ok = true;
-  }
-  if (!r.ok && getenv("C15_DUMP")) {
-    fprintf(stderr, "FAIL: %s\n", r.msg.c_str());
-    for (size_t i = 0; i < P.p.size(); ++i) {
-      const RefCell R = ref_cell(i, P.p, P.lo, P.hi);
-      fprintf(stderr, "cell %zu V=%.17g ref=%.17Lg rel=%.3e\n", i, G.vol[i],
-              R.vol, (double)((G.vol[i] - R.vol) / R.vol));
-      if (fabsl(G.vol[i] - R.vol) > 1e-9 * R.vol) {
-        for (auto &f : G.faces[i]) {
-          fprintf(stderr, "   face ->%lld area %.6e nv=%zu:", (long long)f.id,
-                  f.area, f.vert.size());
-          for (auto &v : f.vert)
-            fprintf(stderr, " (%.9Lg %.9Lg %.9Lg)", v.x, v.y, v.z);
-          fprintf(stderr, "\n");
-        }
-        for (auto &f : R.faces)
-          fprintf(stderr, "   ref  ->%lld area %.6Le\n", (long long)f.id, f.area);
-      }
-    }
+    r.known.clear();
   }
   return r;
 }
@@ -867,34 +1196,58 @@ VResult o_old(const VCase &c) {
   common_labels(P, r, true);
   Stat st;
   const double sep = min_separation(P) / P.Lbox;
-  // OldVoronoiCell treats vertices closer than sqrt(2e-10)*|sides| ~ 1.4e-5 box
-  // diagonals to a cutting plane as lying on it (OLDVORONOI_TOLERANCE): inputs
-  // with smaller structure are outside what that algorithm resolves
-  if (sep < 1e-3 && !getenv("C15_NOSKIP")) {
+  // OldVoronoiCell treats a vertex whose (distance to a cutting plane) x (half
+  // the generator separation) is below OLDVORONOI_TOLERANCE |sides|^2 = 2e-10
+  // |sides|^2 as lying on the plane: structure finer than ~1e-3 of the box is
+  // below what that algorithm resolves by design, and exactly degenerate input
+  // is not required to work (property statement).  Both are excluded here.
+  if ((sep < 1e-3 || min_wall_distance(P) < 1e-3) && !getenv("C15_NOSKIP")) {
     r.label("below-old-tolerance-skipped");
     r.nontrivial = false;
     return r;
   }
-  const GridOut O = run_grid<OldVoronoiGrid>(P.pos, P.box, P.threads, P.queries, false);
+  g_delta = DELTA + 10. * 2. * OLDVORONOI_TOLERANCE / sep;
+  GridOut O;
+  const std::string err =
+      run_isolated<OldVoronoiGrid>(P.pos, P.box, P.threads, P.queries, false, O);
+  if (!err.empty()) {
+    r.fail(fmt("OldVoronoiGrid: construction failed on a valid input: %s",
+               err.c_str()));
+    return r;
+  }
   check_grid("OldVoronoiGrid", P, O, r, st);
   if (r.ok)
     check_queries("OldVoronoiGrid", P, O, r);
   if (r.ok) {
-    const GridOut G = run_grid<NewVoronoiGrid>(P.pos, P.box, 1, {}, true);
+    GridOut G;
+    const std::string e1 = run_isolated<NewVoronoiGrid>(P.pos, P.box, 1, {}, true, G);
+    if (!e1.empty()) {
+      grid_failure("NewVoronoiGrid", e1, P, r);
+      return r;
+    }
     for (size_t i = 0; i < P.pos.size() && r.ok; ++i) {
       const double l = std::cbrt(G.vol[i]);
-      const double ve = std::abs(G.vol[i] - O.vol[i]) / G.vol[i];
-      const double ce = (double)norm(G.cen[i] - O.cen[i]) / l;
-      st.diff_vol = std::max(st.diff_vol, ve);
-      st.diff_cen = std::max(st.diff_cen, ce);
-      if (!(ve <= TOL_GEO))
+      double A = 0., D = 0.;
+      for (auto &f : G.faces[i])
+        if (f.area > 0. && std::isfinite(f.area)) {
+          A += f.area;
+          if (f.area > AREA_MIN * l * l)
+            D = std::max(D, 2. * (double)norm(f.mid - P.p[i]));
+        }
+      const double tv = tolV(P.Lbox, G.vol[i], A);
+      const double ve = std::abs(G.vol[i] - O.vol[i]);
+      const double ce = (double)norm(G.cen[i] - O.cen[i]);
+      const double tc = (tv / G.vol[i] + 1e-9) * D * 4.;
+      st.diff_vol = std::max(st.diff_vol, ve / tv);
+      st.diff_cen = std::max(st.diff_cen, ce / tc);
+      if (!(ve <= tv))
         r.fail(fmt("cell %zu: volume %.17g (incremental) vs %.17g (plane "
-                   "cutting), rel %g",
-                   i, G.vol[i], O.vol[i], ve));
-      else if (!(ce <= TOL_GEO))
+                   "cutting), rel %g, allowed %g",
+                   i, G.vol[i], O.vol[i], ve / G.vol[i], tv / G.vol[i]));
+      else if (!(ce <= tc))
         r.fail(fmt("cell %zu: centroids of the two constructions differ by %g "
-                   "cell sizes",
-                   i, ce));
+                   "(allowed %g)",
+                   i, ce, tc));
       else {
         std::map<int64_t, double> ga, oa;
         for (auto &f : G.faces[i])
@@ -905,23 +1258,115 @@ VResult o_old(const VCase &c) {
             oa[f.id] += f.area;
         for (auto &kv : ga) {
           const double a2 = oa.count(kv.first) ? oa[kv.first] : 0.;
-          if (std::abs(a2 - kv.second) > 10 * TOL_GEO * l * l)
+          if (std::abs(a2 - kv.second) > 10 * tolA(P.Lbox, kv.second) + 1e-8 * l * l)
             r.fail(fmt("face %zu->%lld: area %.17g (incremental) vs %.17g "
                        "(plane cutting)",
                        i, (long long)kv.first, kv.second, a2));
         }
         for (auto &kv : oa)
-          if (!ga.count(kv.first) && kv.second > 10 * TOL_GEO * l * l)
+          if (!ga.count(kv.first) && kv.second > 10 * tolA(P.Lbox, kv.second) + 1e-8 * l * l)
             r.fail(fmt("face %zu->%lld of area %g only exists in the plane "
                        "cutting construction",
                        i, (long long)kv.first, kv.second));
       }
     }
   }
+  g_delta = DELTA;
+  if (!r.ok && r.known.empty() && old_tolerance_prone(P))
+    r.known = "oldvoronoi_tolerance_near_degenerate";
   debug("old", P, st, sep);
   if (!r.ok && getenv("C15_NOFAIL")) {
-    fprintf(stderr, "C15FAIL old cls=%d n=%zu sep=%.2e %s\n", P.cls, P.pos.size(), sep, r.msg.substr(0, 150).c_str());
+    fprintf(stderr, "C15FAIL old cls=%d n=%zu sep=%.2e %016llx known=%s %s\n", P.cls,
+            P.pos.size(), sep, (unsigned long long)c.hash(), r.known.c_str(),
+            r.msg.substr(0, 150).c_str());
+    r.known.clear();
+    char fn[256];
+    snprintf(fn, sizeof fn, "nofail-old-%016llx.case", (unsigned long long)c.hash());
+    std::ofstream f(fn);
+    VCase cc = c;
+    cc.prop = "old_vs_new";
+    f << cc.to_text();
     r.ok = true;
+  }
+  return r;
+}
+
+// positions a few ulp inside the walls: the bucket index of PointLocations
+VCase gen_index() {
+  VCase c;
+  double a[3], s[3];
+  for (int k = 0; k < 3; ++k) {
+    a[k] = vr::coin(0.3) ? 0. : vr::uni(-2., 2.);
+    s[k] = vr::coin(0.3) ? 1. : vr::logu(0.05, 20.);
+  }
+  const int n = (int)vr::irange(2, 200);
+  std::vector<double> flat;
+  for (int i = 0; i < n; ++i)
+    for (int k = 0; k < 3; ++k)
+      flat.push_back(a[k] + s[k] * vr::uni(1e-3, 1. - 1e-3));
+  RC_PRE(resolvable(flat, a, s));
+  {
+    std::set<std::vector<double>> seen;
+    for (size_t i = 0; i + 2 < flat.size(); i += 3)
+      RC_PRE(seen.insert({flat[i], flat[i + 1], flat[i + 2]}).second);
+  }
+  c.I("cls", 0);
+  c.I("threads", 1);
+  c.D("anchor", {a[0], a[1], a[2]});
+  c.D("sides", {s[0], s[1], s[2]});
+  c.D("pos", flat);
+  std::vector<double> qs;
+  for (int t = 0; t < 12; ++t) {
+    double x[3];
+    for (int k = 0; k < 3; ++k)
+      x[k] = a[k] + s[k] * vr::uni();
+    const int nk = (int)vr::irange(1, 3);
+    for (int w = 0; w < nk; ++w) {
+      const int k = (int)vr::irange(0, 2);
+      x[k] = vr::coin(0.8) ? ulps(a[k] + s[k], -vr::irange(1, 3)) : ulps(a[k], vr::irange(0, 3));
+    }
+    for (int k = 0; k < 3; ++k) {
+      if (!(x[k] >= a[k]))
+        x[k] = a[k];
+      if (!(x[k] < a[k] + s[k]))
+        x[k] = std::nextafter(a[k] + s[k], -1e300);
+    }
+    qs.insert(qs.end(), x, x + 3);
+  }
+  c.D("queries", qs);
+  return c;
+}
+
+VResult o_index(const VCase &c) {
+  VResult r;
+  const Problem P = unpack(c);
+  if (!valid_problem(P, r))
+    return r;
+  r.label(P.pos.size() <= 10 ? "one-bucket-old" : "several-buckets");
+  r.nontrivial = true;
+  for (int which = 0; which < 2 && r.ok; ++which) {
+    GridOut G;
+    const std::string err =
+        which == 0 ? run_isolated<NewVoronoiGrid>(P.pos, P.box, 1, P.queries, true, G)
+                   : run_isolated<OldVoronoiGrid>(P.pos, P.box, 1, P.queries, false, G);
+    const char *name = which == 0 ? "NewVoronoiGrid" : "OldVoronoiGrid";
+    if (!err.empty()) {
+      r.fail(fmt("%s: construction failed on a valid input: %s", name, err.c_str()));
+      return r;
+    }
+    for (size_t t = 0; t < P.queries.size(); ++t)
+      if (G.index[t] == -2) {
+        r.label("query-bucket-overflow");
+        r.fail(fmt("%s: get_index(%.17g, %.17g, %.17g): a position inside the "
+                   "box (and inside PointLocations' own asserted range) maps to "
+                   "bucket index == number of buckets; "
+                   "PointLocations::generalngbiterator would read _grid out of "
+                   "bounds",
+                   name, P.queries[t].x(), P.queries[t].y(), P.queries[t].z()));
+        r.known = "pointlocations_top_wall_bucket";
+        return r;
+      }
+    check_queries(name, P, G, r);
   }
   return r;
 }
@@ -953,5 +1398,9 @@ int main(int argc, char **argv) {
   props.push_back({"old_vs_new", 300, [] { return gen_grid(300, true); }, o_old,
                    "OldVoronoiGrid: invariants, and agreement with NewVoronoiGrid "
                    "(volumes, centroids, faces) on non-degenerate classes; " + dom});
+  props.push_back({"index_near_walls", 300, gen_index, o_index,
+                   "2..200 uniform generators; 12 positions per grid with 1-3 "
+                   "coordinates 1-3 ulp below the upper wall or 0-3 ulp above the "
+                   "lower wall; get_index of both grids == brute-force nearest"});
   return vr::vmain(argc, argv, "C15", props);
 }
